@@ -441,7 +441,8 @@ Definition fpr (s s' : vsock) : Prop :=
   v_segs s' = v_segs s /\ v_opts s' = v_opts s /\ v_now s' = v_now s /\ v_env_now s' = v_env_now s /\
   v_emsg_limit s' = v_emsg_limit s /\ v_restart s' = v_restart s /\
   (exists k, v_sends s' = skipn k (v_sends s)) /\
-  exists l, v_out s' = l ++ v_out s /\ Forall nodata l.
+  (exists l, v_out s' = l ++ v_out s /\ Forall nodata l) /\
+  v_rtte s' = v_rtte s.
 
 Lemma fpr_refl : forall s, fpr s s.
 Proof.
@@ -451,8 +452,8 @@ Qed.
 
 Lemma fpr_trans : forall a b c, fpr a b -> fpr b c -> fpr a c.
 Proof.
-  unfold fpr. intros a b c (A1 & A2 & A3 & A4 & A5 & A6 & (k1 & A9) & l1 & A10 & A11)
-    (B1 & B2 & B3 & B4 & B5 & B6 & (k2 & B9) & l2 & B10 & B11).
+  unfold fpr. intros a b c (A1 & A2 & A3 & A4 & A5 & A6 & (k1 & A9) & (l1 & A10 & A11) & A12)
+    (B1 & B2 & B3 & B4 & B5 & B6 & (k2 & B9) & (l2 & B10 & B11) & B12).
   repeat split; try congruence.
   - exists (k1 + k2)%nat. rewrite B9, A9. apply skipn_add.
   - exists (l2 ++ l1). split; [rewrite B10, A10; apply app_assoc|].
@@ -462,14 +463,36 @@ Qed.
 Lemma fpr_same : forall s s' : vsock,
   v_segs s' = v_segs s -> v_opts s' = v_opts s -> v_now s' = v_now s -> v_env_now s' = v_env_now s ->
   v_emsg_limit s' = v_emsg_limit s -> v_restart s' = v_restart s -> v_sends s' = v_sends s ->
-  v_out s' = v_out s -> fpr s s'.
+  v_out s' = v_out s -> v_rtte s' = v_rtte s -> fpr s s'.
 Proof.
-  intros s s' E1 E2 E3 E4 E5 E6 E9 E10. unfold fpr. repeat split; auto.
+  intros s s' E1 E2 E3 E4 E5 E6 E9 E10 E11. unfold fpr. repeat split; auto.
   - exists 0%nat. exact E9.
   - exists []. split; [exact E10 | constructor].
 Qed.
 
 Ltac fpr_leaf := apply fpr_same; reflexivity.
+
+(* the same without the claim on the RTT estimator (the RTO reaction of send_tx_queue changes it) *)
+Definition fpw (s s' : vsock) : Prop :=
+  v_segs s' = v_segs s /\ v_opts s' = v_opts s /\ v_now s' = v_now s /\ v_env_now s' = v_env_now s /\
+  v_emsg_limit s' = v_emsg_limit s /\ v_restart s' = v_restart s /\
+  (exists k, v_sends s' = skipn k (v_sends s)) /\
+  (exists l, v_out s' = l ++ v_out s /\ Forall nodata l).
+
+Lemma fpr_fpw : forall s s', fpr s s' -> fpw s s'.
+Proof. unfold fpr, fpw. intros s s' H. tauto. Qed.
+
+Lemma fpw_same : forall s s' : vsock,
+  v_segs s' = v_segs s -> v_opts s' = v_opts s -> v_now s' = v_now s -> v_env_now s' = v_env_now s ->
+  v_emsg_limit s' = v_emsg_limit s -> v_restart s' = v_restart s -> v_sends s' = v_sends s ->
+  v_out s' = v_out s -> fpw s s'.
+Proof.
+  intros s s' E1 E2 E3 E4 E5 E6 E9 E10. unfold fpw. repeat split; auto.
+  - exists 0%nat. exact E9.
+  - exists []. split; [exact E10 | constructor].
+Qed.
+
+Ltac fpw_leaf := apply fpw_same; reflexivity.
 
 (* errors other than the retransmission cap *)
 Definition nmax (e : verror) : Prop := e <> ErrMaxRetransmissionsReached.
@@ -636,7 +659,7 @@ Section SendRule.
 Variable Iv : vsock -> Prop.
 Variable Jv : vsock -> Prop.          (* after a transmission attempt answered EMSGSIZE *)
 Variable Ev : vsock -> verror -> Prop.
-Hypothesis I_fpr : forall s s' : vsock, fpr s s' -> Iv s -> Iv s'.
+Hypothesis I_fpw : forall s s' : vsock, fpw s s' -> Iv s -> Iv s'.
 Hypothesis I_emsg : forall (s : vsock) h f s1, Iv s -> send_data s h f = SOk s1 SdEmsgsize -> Jv s1.
 Hypothesis J_E : forall s e, Jv s -> e <> ErrMaxRetransmissionsReached -> Ev s e.
 Hypothesis I_sent : forall (s : vsock) h f s1 n rest,
@@ -681,11 +704,11 @@ Proof.
   - split; [eapply I_sent; eauto|].
     destruct Hd as (_ & _ & Hsg & _). rewrite Hsg. unfold on_sent, Segments.set_segs. cbn [ss_segs ss_snd_una].
     destruct Hs as (_ & _ & _ & Hr). apply synced_update; [lia | exact Hr].
-  - apply (I_fpr s s1 Hf Hi).
+  - apply (I_fpw s s1 (fpr_fpw _ _ Hf) Hi).
   - eapply I_emsg; eauto.
   - destruct (verror_eq_max e) as [->|Hne].
     + apply send_data_err_max in Ed. destruct Ed as [-> Hc]. eapply E_max; eauto.
-    + apply E_of_I; [apply (I_fpr s s1 Hf Hi) | exact Hne].
+    + apply E_of_I; [apply (I_fpw s s1 (fpr_fpw _ _ Hf) Hi) | exact Hne].
 Qed.
 
 Lemma recovery_loop_rule : forall items (s : vsock) h mss0 st n,
@@ -719,20 +742,20 @@ Qed.
 Lemma on_rto_reactions_I : forall (s s1 : vsock), on_rto_reactions cci s = Some s1 -> Iv s -> Iv s1.
 Proof.
   intros s s1 H Hi. unfold on_rto_reactions in H. destruct (on_rto_timeout _); [|discriminate].
-  injection H as <-. eapply I_fpr; [|exact Hi]. fpr_leaf.
+  injection H as <-. eapply I_fpw; [|exact Hi]. fpw_leaf.
 Qed.
 
 Lemma sfp_stI : forall X (s : vsock) (m : step X), Iv s -> sfp s m -> stI m.
 Proof.
   intros X s m Hi H. destruct m; cbn [sfp stI] in *; auto.
-  - eapply I_fpr; eauto.
-  - destruct H as [H1 H2]. apply E_of_I; [eapply I_fpr; eauto | exact H2].
+  - eapply I_fpw; [apply fpr_fpw|]; eauto.
+  - destruct H as [H1 H2]. apply E_of_I; [eapply I_fpw; [apply fpr_fpw|]; eauto | exact H2].
 Qed.
 
 Lemma maybe_send_fin_I : forall s : vsock, Iv s -> stI (maybe_send_fin s).
 Proof. intros s Hi. eapply sfp_stI; [exact Hi | apply maybe_send_fin_fpr]. Qed.
 
-Ltac i_same a := apply (I_fpr a); [fpr_leaf|].
+Ltac i_same a := apply (I_fpw a); [fpw_leaf|].
 
 Theorem send_tx_queue_rule : forall s : vsock, Iv s -> stI (send_tx_queue cci s).
 Proof.
@@ -1064,8 +1087,11 @@ Proof. intros s s' E1 E2. unfold CAP. rewrite E1, E2. auto. Qed.
 Lemma MAXW_eq : forall s s' : vsock, v_segs s' = v_segs s -> v_opts s' = v_opts s -> MAXW s -> MAXW s'.
 Proof. intros s s' E1 E2. unfold MAXW. rewrite E1, E2. auto. Qed.
 
-Lemma CAP_fpr : forall s s', fpr s s' -> CAP s -> CAP s'.
+Lemma CAP_fpw : forall s s', fpw s s' -> CAP s -> CAP s'.
 Proof. intros s s' (E1 & E2 & _). apply CAP_eq; assumption. Qed.
+
+Lemma CAP_fpr : forall s s', fpr s s' -> CAP s -> CAP s'.
+Proof. intros s s' H. apply CAP_fpw, fpr_fpw, H. Qed.
 
 Lemma Forall_update_nth : forall A (Q : A -> Prop) (phi : A -> A) l i,
   Forall Q l -> (forall x, nth_error l i = Some x -> Q (phi x)) -> Forall Q (update_nth l i phi).
@@ -1111,7 +1137,7 @@ Proof. intros s e Hc Hn. split; [exact Hc | intro K; contradiction]. Qed.
 Lemma stq_CAP : forall s : vsock, CAP s -> stI CAP ECAP (send_tx_queue cci s).
 Proof.
   intros s Hc. apply (send_tx_queue_rule CAP CAP ECAP); try exact Hc.
-  - exact CAP_fpr.
+  - exact CAP_fpw.
   - intros a h f a1 K E. pose proof (send_data_fpr_other a h f) as F. rewrite E in F.
     eapply CAP_fpr; eauto.
   - exact ECAP_of.
@@ -1290,7 +1316,7 @@ Proof.
   cbn [forallb] in H. apply andb_true_iff in H. apply IH. tauto.
 Qed.
 
-Lemma EF_fpr : forall s s', fpr s s' -> EF s -> EF s'.
+Lemma EF_fpr : forall s s', fpw s s' -> EF s -> EF s'.
 Proof.
   intros s s' (_ & _ & _ & _ & E5 & _ & (k & E7) & _) [H1 H2]. unfold EF, VSock_Inv.emsg_free.
   rewrite E5, E7. split; [apply script_legit_skipn; exact H1 | exact H2].
@@ -1345,7 +1371,7 @@ Definition SZ (s : vsock) : Prop := Forall (fun g => 0 <= sg_size g) (ss_segs (v
 Lemma nodata_live : forall (s : vsock) p, nodata p -> live_pkt s p.
 Proof. intros s p H K. contradiction. Qed.
 
-Lemma OUT_fpr : forall s s', fpr s s' -> OUT s -> OUT s'.
+Lemma OUT_fpr : forall s s', fpw s s' -> OUT s -> OUT s'.
 Proof.
   intros s s' (E1 & _ & E3 & _ & _ & _ & _ & l & E8 & E9) H. unfold OUT. rewrite E8.
   apply Forall_app. split.
@@ -1366,7 +1392,7 @@ Qed.
 Definition IO (s : vsock) : Prop :=
   EF s /\ v_restart s = false /\ NW s /\ OUT s /\ SZ s.
 
-Lemma IO_fpr : forall s s', fpr s s' -> IO s -> IO s'.
+Lemma IO_fpr : forall s s', fpw s s' -> IO s -> IO s'.
 Proof.
   intros s s' F (H1 & H2 & H3 & H4 & H5).
   pose proof F as (E1 & _ & E3 & E4 & _ & E6 & _).
@@ -1434,7 +1460,7 @@ Definition IA (s : vsock) : Prop :=
 
 Lemma IA_fpr : forall s s', fpr s s' -> IA s -> IA s'.
 Proof.
-  intros s s' F (H1 & H2 & H3 & H4).
+  intros s s' F0 (H1 & H2 & H3 & H4). pose proof (fpr_fpw _ _ F0) as F.
   pose proof F as (_ & _ & E3 & E4 & _ & E6 & _ & l & E8 & E9).
   split; [eapply EF_fpr; eauto|]. split; [congruence|]. split; [unfold NW in *; congruence|].
   rewrite E8. apply Forall_app. split; assumption.
@@ -1473,7 +1499,8 @@ Proof.
   assert (Hcfp : forall X (a : vsock) (m : step X), Cc a -> sfp a m -> stH Cc (fun _ _ => True) Cc m).
   { intros X a m [K1 K2] F. destruct m as [a' x|a' e|]; cbn [sfp stH] in *; auto.
     assert (K' : Cc a').
-    { pose proof F as (_ & _ & E3 & E4 & _). split; [unfold NW in *; congruence | eapply OUT_fpr; eauto]. }
+    { pose proof F as (_ & _ & E3 & E4 & _). split; [unfold NW in *; congruence|].
+      eapply OUT_fpr; [apply fpr_fpw; exact F | exact K2]. }
     split; intros _; exact K'. }
   assert (HR : resH A0 Cc Cc (fun _ _ => True) s' PollPending).
   { apply (poll_H A0 A A A Cc Cc Cc (fun _ _ => True)) with (s := s); try exact H.
@@ -1500,13 +1527,13 @@ Proof.
       destruct S as (S1 & S2 & S3 & S4 & S5).
       split; [intro R; congruence|]. split; intros _ _; split; assumption.
     - intros a [K1 K2] _. pose proof (transition_fpr a) as F. pose proof F as (_ & _ & E3 & E4 & _).
-      split; [unfold NW in *; congruence | eapply OUT_fpr; eauto].
+      split; [unfold NW in *; congruence | eapply OUT_fpr; [apply fpr_fpw; exact F | exact K2]].
     - intros a K _. apply (Hcfp _ a); [exact K | apply maybe_send_fin_fpr].
     - intros a K _. apply (Hcfp _ a); [exact K | apply maybe_send_ack_fpr].
     - split; [eapply LB_kp; [exact HL|]; unfold kp; auto|]. split; [exact HE | reflexivity]. }
   cbn [resH] in HR. destruct HR as [[_ K]|(sb & [K1 K2] & _ & _ & _ & ->)]; [exact K|].
   pose proof (poll_tail_fpr sb) as F. pose proof F as (_ & _ & E3 & E4 & _).
-  split; [unfold NW in *; congruence | eapply OUT_fpr; eauto].
+  split; [unfold NW in *; congruence | eapply OUT_fpr; [apply fpr_fpw; exact F | exact K2]].
 Qed.
 
 (* ================================================================== the joint relation of ring and table,
